@@ -19,6 +19,8 @@ Th == Tier = "thorough"
 R0 == DefaultR
 
 SeqsUpTo(S, n) == UNION {[1..k -> S] : k \in 0..n}
+Case(k, fam, preds, log, mut) == [k |-> k, fam |-> fam, preds |-> preds, log |-> log, mut |-> mut, sets |-> <<>>, logs |-> <<>>]
+LD(same, topics, words, cut) == [same |-> same, topics |-> topics, words |-> words, cut |-> cut]
 
 ----------------------------------------------------------------------------
 (* value predicates                                                         *)
@@ -81,6 +83,47 @@ PairDefs ==
     ({<<p, q>> : p \in PairPreds, q \in PairPreds} \ {<<p, p>> : p \in PairPreds})
     \cup (IF Th THEN [1..3 -> PairCore] ELSE {<<p, q, p>> : p \in PairCore, q \in PairCore})
 
+(* dynamic values longer than one word (33, 64, 65 bytes) whose high part is not zero while the low
+   word is 0 / 32 / random: every unsigned operator against 0, 32, 2^64-1, 2^64                     *)
+DynLongDefs == {<<UintP(TRUE, "o4", o, t)>> : o \in 0..4, t \in {"i0", "i32", "iU64", "i2P64"}}
+               \cup {<<EqP(TRUE, "o4", "Z")>>, <<EqP(TRUE, "o4", "b64")>>}
+DynLongLogs ==
+    {LD(TRUE, <<>>, w, 0) : w \in { <<"W32", "W64", "WTOP", "Z">>, <<"W32", "W64", "WTOP", "W32">>, <<"W32", "W64", "R1", "W32">>,
+                                    <<"W32", "W64", "R1", "Z">>, <<"W32", "W64", "R1", "R2">>, <<"W32", "W64", "Z", "W32">>,
+                                    <<"W32", "W64", "Z", "Z">>, <<"W32", "W33", "WTOP", "Z">>, <<"W32", "W33", "WTOP", "B32">>,
+                                    <<"W32", "W33", "Z", "B32">> }}
+    \cup {LD(TRUE, <<>>, w, 31) : w \in { <<"W32", "W33", "WTOP", "B32">>, <<"W32", "W65", "WTOP", "Z", "Z">>,
+                                         <<"W32", "W65", "WTOP", "Z", "B32">>, <<"W32", "W65", "Z", "R1", "B32">> }}
+
+(* FetchEvents level: sets of two or three definitions active together on one contract.  The palette
+   has one event signature with a constant at different topic positions, a wildcard gap, identical
+   filters with different data predicates or predicate order, disjoint filters, filters without topic
+   constants.                                                                                       *)
+F1 == <<EqP(FALSE, "o0", "R1"), EqP(FALSE, "o1", "W1")>>
+F2 == <<EqP(FALSE, "o0", "R1"), EqP(FALSE, "o2", "W1")>>                     \* same constants, gap at position 1
+F3 == <<EqP(FALSE, "o0", "R1"), EqP(FALSE, "o1", "W1"), UintP(FALSE, "o4", 0, "i32")>>   \* filter of F1 + data predicate
+F4 == <<EqP(FALSE, "o0", "R1")>>
+F5 == <<EqP(FALSE, "o0", "R2"), EqP(FALSE, "o1", "W1")>>                     \* other signature
+F6 == <<EqP(FALSE, "o1", "R1")>>                                             \* the constant of F4 one position later
+F7 == <<EqP(FALSE, "o0", "W1"), EqP(FALSE, "o1", "R1")>>                     \* constants of F1 swapped
+F8 == <<EqP(FALSE, "o1", "W1"), EqP(FALSE, "o0", "R1")>>                     \* filter of F1, predicates in the other order
+F9 == <<UintP(FALSE, "o1", 4, "i1")>>                                        \* no topic constant in the filter
+F10 == <<>>
+F11 == <<EqP(FALSE, "o0", "R1"), EqP(TRUE, "o4", "R1")>>                     \* signature + dynamic data predicate
+FetchPalette == {F1, F2, F3, F4, F5, F6, F7, F8, F9, F10, F11}
+FetchCore == {F1, F2, F4, F6, F7, F9}
+FetchSets ==
+    ({<<a, b>> : a \in FetchPalette, b \in FetchPalette} \ {<<a, a>> : a \in FetchPalette})
+    \cup {t \in FetchCore \X FetchCore \X (IF Th THEN FetchPalette ELSE FetchCore) : t[1] # t[2] /\ t[3] # t[1] /\ t[3] # t[2]}
+FetchLogs ==
+    << LD(TRUE, <<"R1", "W1", "R2">>, <<"W1">>, 0),      LD(TRUE, <<"R1", "R2", "W1">>, <<"W64">>, 0),
+       LD(TRUE, <<"R1", "W1", "W1">>, <<"W64">>, 0),     LD(TRUE, <<"R1">>, <<>>, 0),
+       LD(TRUE, <<"R2", "W1">>, <<"W1">>, 0),            LD(TRUE, <<"W1", "R1">>, <<"W1">>, 0),
+       LD(TRUE, <<"R1", "R1">>, <<"W32", "W32", "R1">>, 0), LD(TRUE, <<>>, <<"W1">>, 0),
+       LD(TRUE, <<"Z", "R1", "W1">>, <<>>, 0),           LD(FALSE, <<"R1", "W1", "W1">>, <<"W1">>, 0),
+       LD(TRUE, <<"R1", "Z", "W1", "W1">>, <<"W32", "W32", "R1">>, 1), LD(TRUE, <<"R1", "W1">>, <<"W32", "W32", "R1">>, 0) >>
+FetchCases == {[Case("fetch", "fetch", <<>>, NoLog, NoMut) EXCEPT !.sets = st, !.logs = FetchLogs] : st \in FetchSets}
+
 (* malformed shapes: only Validate / encode / decode / filter are exercised on them *)
 ShapeDefs ==
     { <<PD(FALSE, "o4", 6, <<>>, <<>>)>>,                        \* unknown operator
@@ -106,19 +149,19 @@ DecBases ==
     \cup (IF Th THEN {<<M2, M4>>, <<M8>>, <<UintP(FALSE, "o4", 1, "i128")>>, <<UintP(FALSE, "o4", 1, "i127")>>,
                       <<EqP(TRUE, "o5", "b1h")>>, <<M9, M6, M5>>} ELSE {})
 
-Case(k, fam, preds, log, mut) == [k |-> k, fam |-> fam, preds |-> preds, log |-> log, mut |-> mut]
 DefCases ==
     {Case("def", "topic", p, NoLog, NoMut) : p \in TopicDefs}
     \cup {Case("def", "static", p, NoLog, NoMut) : p \in StaticDefs}
     \cup {Case("def", "dyn", p, NoLog, NoMut) : p \in DynDefs}
     \cup {Case("def", "multi", p, NoLog, NoMut) : p \in MultiDefs}
     \cup {Case("def", "pair", p, NoLog, NoMut) : p \in PairDefs}
+    \cup {Case("def", "dynlong", p, NoLog, NoMut) : p \in DynLongDefs}
+    \cup FetchCases
     \cup {Case("def", "shape", p, NoLog, NoMut) : p \in ShapeDefs}
     \cup {Case("def", "dec", p, NoLog, NoMut) : p \in DecBases}
 
 ----------------------------------------------------------------------------
 (* logs per definition                                                      *)
-LD(same, topics, words, cut) == [same |-> same, topics |-> topics, words |-> words, cut |-> cut]
 Cuts == IF Th THEN {0, 1, 31, 32} ELSE {0, 1, 31}
 CutsFor(words) == IF Len(words) = 0 THEN {0} ELSE Cuts
 
@@ -180,6 +223,7 @@ LogsFor(fam, preds) ==
       [] fam = "dyn" -> DynLogs
       [] fam = "multi" -> MultiLogs
       [] fam = "pair" -> PairLogs
+      [] fam = "dynlong" -> DynLongLogs
       [] OTHER -> {}
 
 (* mutations of an encoding of length n *)
@@ -228,6 +272,13 @@ Failed(cs) ==
                \cup (IF C17_Bounded(l, o) THEN {} ELSE {"C17_Bounded"})
                \cup (IF C17_Semantics(d, l, o) THEN {} ELSE {"C17_Semantics"})
                \cup (IF C17_FilterSound(l, o) THEN {} ELSE {"C17_FilterSound"})
+      [] cs.k = "fetch" ->
+            LET ds == [i \in DOMAIN cs.sets |-> ConcDef(cs.sets[i], R0)]
+                ls == [j \in DOMAIN cs.logs |-> ConcLog(cs.logs[j], R0)]
+                o == [err |-> "", fired |-> CFetchFired(ds, ls),
+                      pm |-> [i \in DOMAIN ds |-> [j \in DOMAIN ls |-> IF CValid(ds[i]) THEN CMatch(ds[i], ls[j]) ELSE "skip"]]]
+            IN (IF C17_FetchNotHidden(ds, ls, o) THEN {} ELSE {"C17_FetchNotHidden"})
+               \cup (IF C17_FetchOnlyMatching(ds, ls, o) THEN {} ELSE {"C17_FetchOnlyMatching"})
       [] cs.k = "dec" ->
             IF cs.mut.m = "rnd" THEN {}
             ELSE LET o == SpecOutDec(ApplyMut(CMarshal(d), cs.mut)) IN
@@ -241,7 +292,7 @@ Next ==
     \/ /\ c.k = "root"
        /\ c' \in DefCases
     \/ /\ c.k = "def"
-       /\ c.fam \in {"topic", "static", "dyn", "multi", "pair"}
+       /\ c.fam \in {"topic", "static", "dyn", "multi", "pair", "dynlong"}
        /\ \E l \in LogsFor(c.fam, c.preds) : c' = Case("match", c.fam, c.preds, l, NoMut)
     \/ /\ c.k = "def"
        /\ c.fam = "dec"
